@@ -138,11 +138,12 @@ func (d *c19DB) destroy() {
 }
 
 type c19Case struct {
-	types   []string // destination column types, in table order
-	dstCols []int    // destination column indexes that are mapped (in mapping order)
-	srcCols []int    // CSV field index for each mapped destination column
-	sep     rune
-	records []c19Record
+	types    []string // destination column types, in table order
+	dstCols  []int    // destination column indexes that are mapped (in mapping order)
+	srcCols  []int    // CSV field index for each mapped destination column
+	sep      rune
+	records  []c19Record
+	viaFlags bool // the configuration is built by makeConfig from the command line flags (else directly)
 }
 
 type c19Record struct {
@@ -191,6 +192,19 @@ func (d *c19DB) runCase(cs c19Case) (problem string, nontrivial bool, desc strin
 		return fmt.Sprintf("colDataTypes failed: %v", err), false, ""
 	}
 	cfg := importCfg{colTypes: types, db: "d", dstCols: dst, separator: cs.sep, srcCols: cs.srcCols, table: table}
+	if cs.viaFlags {
+		// the way main() does it: flags -> makeConfig
+		var src []string
+		for _, s := range cs.srcCols {
+			src = append(src, fmt.Sprint(s))
+		}
+		*cfgDb, *cfgDestCols, *cfgSep, *cfgSrcCols, *cfgTable = "d", strings.Join(dst, ","), string(cs.sep), strings.Join(src, ","), table
+		var err error
+		cfg, err = makeConfig(rm)
+		if err != nil {
+			return fmt.Sprintf("makeConfig refused -db d -dest-cols %s -separator %q -src-cols %s -table %s: %v", *cfgDestCols, *cfgSep, *cfgSrcCols, table, err), false, ""
+		}
+	}
 	// render the stream
 	var sb strings.Builder
 	for _, r := range cs.records {
@@ -345,7 +359,7 @@ func runC19(env *lib.Env, rep *lib.Report) {
 	maxRecs := 3
 	phase := 1
 	rep.Bounds["schemas"] = fmt.Sprintf("%d (all 1- and 2-column schemas over the four types, five 3-column schemas)", len(schemas))
-	rep.Bounds["record streams"] = fmt.Sprintf("all sequences of <= %d records (one fewer for schemas of several columns; the thorough tier then continues with one more record until its deadline) over the per-schema record alphabet (one record per field value of each column with the others valid; short record; bare quote; unterminated quote as last record) with the identity mapping and comma; plus every injective mapping x separator {, ; tab} with representative streams", maxRecs)
+	rep.Bounds["record streams"] = fmt.Sprintf("all sequences of <= %d records (one fewer for schemas of several columns; the thorough tier then continues with one more record until its deadline) over the per-schema record alphabet (one record per field value of each column with the others valid; short record; bare quote; unterminated quote as last record) with the identity mapping and comma; plus every injective mapping x separator {, ; tab § € |} with representative streams, configured through the command line flags and makeConfig", maxRecs)
 	known := env.OpenKnown()
 	fails := map[string]int{}
 	var db *c19DB
@@ -485,7 +499,7 @@ func runC19(env *lib.Env, rep *lib.Report) {
 				}
 				inj(nil)
 				for _, src := range srcs {
-					for _, sep := range []rune{',', ';', '\t'} {
+					for _, sep := range []rune{',', ';', '\t', '§', '€', '|'} {
 						for _, rs := range reprs {
 							// widen the records to three CSV fields so that every source index exists; field s feeds dst column
 							var wide []c19Record
@@ -496,7 +510,7 @@ func runC19(env *lib.Env, rep *lib.Report) {
 								}
 								wide = append(wide, w)
 							}
-							run(c19Case{types: types, dstCols: dst, srcCols: src, sep: sep, records: wide}, "mappings")
+							run(c19Case{types: types, dstCols: dst, srcCols: src, sep: sep, records: wide, viaFlags: true}, "mappings")
 						}
 					}
 				}
